@@ -41,6 +41,10 @@ type StmtMeta struct {
 	Expect    string        `json:"expect"` // ok | reject (pk change, duplicate key, ...) | any
 	Pred      string        `json:"pred"`   // finding predicate this statement falls under ("" clean)
 	Conn      string        `json:"conn,omitempty"`
+	Table     string        `json:"table,omitempty"`    // statement's own table when the scenario has several
+	SnapPre   string        `json:"snap_pre,omitempty"` // explicit transaction: in-transaction SELECT * before / after the statement
+	SnapPost  string        `json:"snap_post,omitempty"`
+	Step      int           `json:"step,omitempty"` // auto_increment_increment in force when the statement runs
 }
 
 type Meta struct {
@@ -589,6 +593,11 @@ func buildScenario(r *hutil.Rng, i int, stream string, prop string) (atrun.Scena
 		t.name = "oth." + t.name
 	}
 	sc := atrun.Scenario{Name: fmt.Sprintf("%s-%s-%d", prop, strings.ReplaceAll(stream, ":", "-"), i), Setup: setup}
+	autoStep := 1
+	if t.auto {
+		autoStep = []int{1, 1, 2, 5}[r.Intn(4)]
+		sc.Config.AutoIncrementIncrement = autoStep
+	}
 	sc.Config.OnlyCareUpdateColumns = &onlyCare
 	meta := Meta{Stream: stream, Table: t.name, Cols: t.cols, PK: t.pk, AutoInc: t.auto, OnlyCare: onlyCare}
 	body := []atrun.Step{{Op: "dump", Tables: []string{t.name}}}
@@ -597,6 +606,11 @@ func buildScenario(r *hutil.Rng, i int, stream string, prop string) (atrun.Scena
 		if !qualified && s > 0 && r.Chance(1, 4) {
 			// the table-meta cache is replaced between two statements (expiry / refresh / another instance)
 			body = append(body, atrun.Step{Op: "meta_refresh"})
+		}
+		if t.auto && s > 0 && r.Chance(1, 4) {
+			// the session's auto_increment_increment changes between two statements
+			autoStep = []int{1, 2, 3, 5}[r.Intn(4)]
+			body = append(body, atrun.Step{Op: "db_autoinc", N: autoStep})
 		}
 		o := stmtOpt{where: whereOpt{depth: 1 + r.Intn(3), keyBias: true}}
 		special := s == nst-1 // the stream's special statement comes last
@@ -698,6 +712,7 @@ func buildScenario(r *hutil.Rng, i int, stream string, prop string) (atrun.Scena
 				sql = strings.Replace(sql, " "+spelled, " `"+spelled+"`", 1) // back-quoted table name
 			}
 		}
+		sm.Step = autoStep
 		sm.DumpPre = fmt.Sprintf("0.%d", lastDump(body))
 		sm.Path = fmt.Sprintf("0.%d", len(body))
 		body = append(body, atrun.Step{Op: "exec", SQL: sql, Args: sm.Args})
